@@ -159,7 +159,9 @@ def _check_config(c, mods, mjm, m, d, tag, ktag):
     order = np.arange(nacon - 1, -1, -1, dtype=np.int32)
     ids = wp.array(order, dtype=int)
     for twf in (False, True):
-      out = wp.zeros(nacon, dtype=wp.spatial_vector)
+      # the result buffer is pre-filled with a sentinel: every requested contact below nacon must be WRITTEN (zero wrench for a
+      # contact that is excluded from the solve, as mj_contactForce), a reused buffer must not keep the previous answer
+      out = wp.array(np.full((nacon, 6), -3.25, dtype=np.float32), dtype=wp.spatial_vector)
       mjw.contact_force(m, d, ids, twf, out)
       got = out.numpy().astype(np.float64)
       for t, i in enumerate(order):
